@@ -22,3 +22,227 @@ def r2_descending(ctx):
 
 
 RULES = [r1_widen, r2_descending]
+
+
+# ----------------------------------------------------------------------------
+from ..tree import walk, walk_with_parents, strip, is_call, is_ref, is_this, is_field, deref, src, obj, callee
+from .. import paths
+from ..match import strip_move, is_param, rets, nodes_not_in_log, resolve_local, local_decls, cmp_parts, guard_truth
+from . import C08
+from . import _lattice
+
+TD = "include/crab/analysis/inter/top_down_inter_analyzer.hpp"
+TH = "include/crab/fixpoint/thresholds.hpp"
+
+
+def r3_recursion(ctx):
+    ctx.rule("C05.r3", "recursive functions are re-analysed only while !(new_entry <= old_entry && new_exit <= old_exit); entry and exit are widened old || new", floor=3)
+    fs = [f for f in ctx.db.fns(TD, name="analyze_function") if "top_down_inter_impl" in f["pk"]]
+    if not ctx.need(fs, "top_down_inter_impl::analyze_function"):
+        return
+    for fn in fs:
+        body = fn["body"]
+        d = local_decls(body)
+        g = paths.guards(body)
+        rec = [n for n, ps in nodes_not_in_log(body, lambda x: is_call(x, name="analyze_function"))]
+        if not rec:
+            ctx.bad("analyze_function no longer iterates recursive functions", fn, body, sig="rec-no-iteration")
+            continue
+
+        def fix_atom(c):
+            c = resolve_local(body, c, d)
+            c = strip(c)
+            if isinstance(c, dict) and c.get("k") == "bin" and c.get("op") == "&&":
+                ps = [cmp_parts(c.get("L")), cmp_parts(c.get("R"))]
+                names = []
+                for p in ps:
+                    if p and p[0] == "<=" and is_ref(p[1]) and is_ref(p[2]):
+                        names.append((p[1].get("n"), p[2].get("n")))
+                if sorted(names) == [("new_entry", "old_entry"), ("new_exit", "old_exit")]:
+                    return 1
+                if names:
+                    return 0
+            return 0
+        for r in rec:
+            t = guard_truth(g.get(id(r), ()), fix_atom, body)
+            if t is False:
+                ctx.ok("re-analysis only while the (entry, exit) pair still grows", fn, r)
+            else:
+                ctx.bad("the recursive re-analysis is not guarded by !(new_entry <= old_entry && new_exit <= old_exit): the iteration "
+                        "either stops before a post-fixpoint or never stops", fn, r, sig="rec-fixpoint-test")
+        wid = [n for n, ps in nodes_not_in_log(body, lambda x: x.get("k") == "call" and x.get("op") == "=" and is_ref(x.get("o")) and
+                                                 strip(x["o"]).get("n") in ("new_entry", "new_exit") and is_call(strip_move(x["a"][0]), op="||"))]
+        seen = set()
+        for w in wid:
+            v = strip_move(w["a"][0])
+            tgt = strip(w["o"]).get("n")
+            old = "old_" + tgt[4:]
+            if is_ref(v.get("o"), name=old) and is_ref(v["a"][0], name=tgt):
+                ctx.ok("%s = %s || %s (old iterate on the left)" % (tgt, old, tgt), fn, w)
+                seen.add(tgt)
+            else:
+                ctx.bad("recursive fixpoint widens `%s`; the OLD iterate must be the left operand (%s || %s)" % (src(v), old, tgt), fn, w,
+                        sig="rec-widen-order:%s" % tgt)
+        for tgt in ("new_entry", "new_exit"):
+            if tgt not in seen and not any(strip(w["o"]).get("n") == tgt for w in wid):
+                ctx.bad("recursive fixpoint never widens %s" % tgt, fn, body, sig="rec-no-widen:%s" % tgt)
+
+
+def r4_interval_widening(ctx):
+    ctx.rule("C05.r4", "interval widening draws each bound from {own bound, infinity, threshold}; narrowing keeps lower bounds with lower bounds", floor=3)
+    # reuse the bound-polarity terms of C08
+    for fn in ctx.db.fns([C08.II, C08.IH], cpk=C08.ITV):
+        if fn["name"] in ("operator||", "widening_thresholds"):
+            rb = C08._result_bounds(fn)
+            if len(rb) != 1:
+                ctx.undecided("interval::%s: no single result construction" % fn["name"], fn, fn["body"])
+                continue
+            r, lo, hi = rb[0]
+            if lo in C08.WIDEN_LO and hi in C08.WIDEN_HI:
+                ctx.ok("interval::%s = [%s, %s]" % (fn["name"], lo, hi), fn, r)
+            elif "?" in lo or "?" in hi:
+                ctx.undecided("interval::%s: bound outside the grammar" % fn["name"], fn, r)
+            else:
+                ctx.bad("interval::%s returns [%s, %s]: a bound of the ARGUMENT reaches the result (the chain need not stabilise) or the "
+                        "comparison is reversed (the result does not contain the argument)" % (fn["name"], lo, hi), fn, r,
+                        sig="widening-bounds:%s" % fn["name"])
+        if fn["name"] == "operator&&":
+            rb = C08._result_bounds(fn)
+            if len(rb) != 1:
+                ctx.undecided("interval::operator&&: no single result construction", fn, fn["body"])
+                continue
+            r, lo, hi = rb[0]
+            import re
+            def values(term):
+                # atoms in value position of ite(c, a, b) terms (the condition is dropped)
+                t = term
+                while True:
+                    m = re.search(r"ite\(([^()]*|[^()]*\([^()]*\)[^()]*)?,([^,()]+),([^,()]+)\)", t)
+                    if not m:
+                        break
+                    t = t[:m.start()] + m.group(2) + "|" + m.group(3) + t[m.end():]
+                return set(t.split("|"))
+            vlo, vhi = values(lo), values(hi)
+            if vlo <= {"tl", "xl"} and vhi <= {"tu", "xu"}:
+                ctx.ok("interval narrowing: lower bound from %s, upper bound from %s" % (sorted(vlo), sorted(vhi)), fn, r)
+            elif "?" in lo + hi and not (vlo | vhi) & {"tl", "tu", "xl", "xu"}:
+                ctx.undecided("interval::operator&&: bounds outside the grammar", fn, r)
+            else:
+                ctx.bad("interval narrowing builds [%s, %s]: the lower bound of the result must come from the lower bounds of the operands "
+                        "and the upper bound from their upper bounds (otherwise the result can exclude states of the second argument)" %
+                        (lo, hi), fn, r, sig="narrowing-polarity")
+
+
+GRAPH_DOMS = {"include/crab/domains/split_dbm.hpp": "crab::domains::split_dbm_domain",
+              "include/crab/domains/sparse_dbm.hpp": "crab::domains::sparse_dbm_domain",
+              "include/crab/domains/split_oct.hpp": "crab::domains::split_oct_domain"}
+
+
+def r5_left_not_closed(ctx):
+    ctx.rule("C05.r5", "graph domains never normalise / close the LEFT operand of a widening", floor=4)
+    for f, cpk in GRAPH_DOMS.items():
+        for fn in ctx.db.fns(f, cpk=cpk):
+            if fn["name"] not in ("operator||", "widening_thresholds"):
+                continue
+            body = fn["body"]
+            cname = cpk.split("::")[-1]
+            d = local_decls(body)
+            bad = []
+            okn = []
+            for n, ps in walk_with_parents(body):
+                if n.get("k") == "call" and callee(n) and callee(n)["name"] in ("normalize", "close_over_edge", "close_after_widen", "close_after_assign", "normalize_impl"):
+                    recv = n.get("o")
+                    lam = [p for p in ps if p.get("k") == "lambda"]
+                    # receiver this (outside a lambda) = left operand; inside the widen lambda the first parameter is the left operand
+                    if recv is None or is_this(recv):
+                        if not lam:
+                            bad.append(n)
+                        else:
+                            bad.append(n)
+                    elif is_ref(recv):
+                        r = strip(recv)
+                        if lam and lam[-1].get("params") and r.get("id") == lam[-1]["params"][0]["id"]:
+                            bad.append(n)
+                        elif r.get("rk") == "local":
+                            dd = d.get(r.get("id"))
+                            src_ = dd.get("i") if dd else None
+                            from_this = src_ is not None and any(is_this(x) for x in walk(src_))
+                            if from_this:
+                                bad.append(n)
+                            else:
+                                okn.append(n)
+                        else:
+                            okn.append(n)
+            if bad:
+                ctx.bad("%s::%s normalises/closes its LEFT operand (`%s`): closing the previous iterate re-introduces the constraints the "
+                        "widening just dropped, so the chain need not stabilise" % (cname, fn["name"], src(bad[0])[:50]), fn, bad[0],
+                        sig="widen-closes-left:%s::%s" % (cname, fn["name"]))
+            else:
+                ctx.ok("%s::%s closes only (a copy of) the right operand%s" % (cname, fn["name"], "" if okn else " - nothing closed"), fn, None)
+
+
+def r6_product_widening(ctx):
+    ctx.rule("C05.r6", "product widening does not apply the reduction to its result", floor=1)
+    CD = "include/crab/domains/combined_domains.hpp"
+    for fn in ctx.db.fns(CD, cpk="crab::domains::basic_domain_product2"):
+        if fn["name"] not in ("operator||", "widening_thresholds"):
+            continue
+        cs = [n for n in walk(fn["body"]) if n.get("k") == "ctor" and (callee(n) or {}).get("cpk") == "crab::domains::basic_domain_product2" and len(n.get("a", [])) >= 2]
+        for c in cs:
+            a = c.get("a", [])
+            flag = strip(a[2]) if len(a) > 2 else None
+            if flag is not None and flag.get("k") == "dflt":
+                flag = strip(flag.get("e"))
+            if isinstance(flag, dict) and flag.get("v") == "false":
+                ctx.ok("%s builds its result with apply_reduction=false" % fn["name"], fn, c)
+            elif isinstance(flag, dict) and flag.get("v") == "true":
+                ctx.bad("basic_domain_product2::%s builds the widened product WITH reduction: reducing a widened value can undo the "
+                        "extrapolation and the chain need not stabilise" % fn["name"], fn, c, sig="product-widen-reduces:%s" % fn["name"])
+            else:
+                ctx.undecided("cannot read the reduction flag of the widened product", fn, c)
+
+
+def r7_thresholds(ctx):
+    ctx.rule("C05.r7", "threshold sets are finite, contain both infinities and are only written by the constructor and add()", floor=4)
+    cpk = "crab::thresholds"
+    fs = ctx.db.fns(TH, cpk=cpk)
+    if not ctx.need(fs, "crab::thresholds members"):
+        return
+    from ._containers import field_writes
+    for fn in fs:
+        for n in walk(fn["body"]):
+            if n.get("k") == "call" and "o" in n and is_field(n["o"], "m_thresholds") and callee(n) and \
+                    callee(n)["name"] in ("push_back", "insert", "erase", "clear", "emplace_back", "pop_back", "resize", "operator="):
+                if fn.get("ctor") or fn["name"] == "add":
+                    ctx.ok("m_thresholds written by %s" % ("the constructor" if fn.get("ctor") else "add()"), fn, n)
+                else:
+                    ctx.bad("thresholds::%s modifies the threshold vector" % fn["name"], fn, n, sig="thresholds-writer:%s" % fn["name"])
+        if fn.get("ctor") == "other" or fn.get("ctor") == "default":
+            names = [callee(x)["name"] for x in walk(fn["body"]) if x.get("k") == "call" and callee(x) and callee(x)["name"] in ("minus_infinity", "plus_infinity")]
+            if "minus_infinity" in names and "plus_infinity" in names:
+                ctx.ok("constructor inserts -oo and +oo", fn, None)
+            else:
+                ctx.bad("the thresholds constructor must insert both -oo and +oo (get_prev/get_next fall back on them)", fn, fn["body"], sig="thresholds-sentinels")
+        if fn["name"] == "add":
+            g = paths.guards(fn["body"])
+            ins = [x for x in walk(fn["body"]) if is_call(x, name="insert") and is_field(obj(x), "m_thresholds")]
+
+            def bounded(c):
+                p = cmp_parts(c)
+                if p and is_call(p[1], name="size") and is_field(p[2], "m_size") and p[0] == "<":
+                    return 1
+                return 0
+            if ins and all(guard_truth(g.get(id(i), ()), bounded, fn["body"]) is True for i in ins):
+                ctx.ok("add() inserts only while size() < m_size", fn, ins[0])
+            else:
+                ctx.bad("thresholds::add can grow the set beyond m_size", fn, fn["body"], sig="thresholds-unbounded")
+
+
+def r8_widening_prologues(ctx):
+    ctx.rule("C05.r8", "widening operators return at least both arguments in the bottom cases", floor=50)
+    from . import C04
+    _lattice.prologue_rule(ctx, "C05.r8", files=C04.domain_files(ctx), min_classes=20,
+                           class_filter=lambda fn: fn["name"] in ("operator||", "widening_thresholds", "operator&&"))
+
+
+RULES += [r3_recursion, r4_interval_widening, r5_left_not_closed, r6_product_widening, r7_thresholds, r8_widening_prologues]
